@@ -204,3 +204,41 @@ Proof.
   split; [reflexivity|].
   destruct (run_Inv _ h (step_Inv s o I)) as (_ & _ & I3 & _). exact (I3 x t T H).
 Qed.
+
+(* ---- the client side ---- *)
+Lemma client_ops :
+  client_response 0 = [SetReadDeadline 0] /\
+  (forall idle, 0 < idle -> client_response idle = [KeepAlive DR idle]) /\
+  (forall t, 0 < t -> client_do t false = [KeepAlive DR t]) /\
+  (forall p, client_do 0 p = []) /\ (forall t, client_do t true = []).
+Proof.
+  repeat split; try reflexivity.
+  - intros idle H. unfold client_response. destruct (N.eqb_spec idle 0); [lia | reflexivity].
+  - intros t H. unfold client_do. destruct (N.eqb_spec t 0); [lia | reflexivity].
+  - intro t. unfold client_do. now rewrite orb_true_r.
+Qed.
+
+(* the response has arrived and no idle timeout is configured: the request's deadline is gone for good *)
+Lemma client_response_clears s h dl T :
+  closed s = None -> no_pending DR s -> Forall (fun o' => arms DR o' = false) h ->
+  closed (run (run s (client_response 0)) h) <> Some (ByTimeout DR dl, T).
+Proof.
+  intros C NP F. change (run s (client_response 0)) with (step s (SetReadDeadline 0)).
+  apply clear; try assumption. right; left. split; reflexivity.
+Qed.
+
+(* two requests in flight with Timeout = 0: the first response arms a deadline that is already past (the instant
+   tnext at which the second request was sent), and the connection is closed at once *)
+Lemma client_pipelined_timeout0 pref s tnext :
+  closed s = None -> pend s = [] -> wT s = None -> 0 < tnext -> tnext <= now s ->
+  closed (elapse pref 0 (run s (client_response_pending 0 tnext))) = Some (ByTimeout DR tnext, now s).
+Proof.
+  intros C P W Pos Le.
+  change (run s (client_response_pending 0 tnext)) with (step s (SetReadDeadline tnext)).
+  assert (A : arm tnext = Some tnext) by (unfold arm; destruct (N.eqb_spec tnext 0); [lia | reflexivity]).
+  assert (S1 : step s (SetReadDeadline tnext) = mk (now s) (Some tnext) None (pend s) (backlog s) None).
+  { unfold step, is_open, set_timer. rewrite C, A. simpl. now rewrite W. }
+  rewrite S1. rewrite (eager_exact pref _ DR tnext 0); simpl; try assumption; try reflexivity; try lia.
+  - f_equal. f_equal. lia.
+  - intros dl'. discriminate.
+Qed.
